@@ -97,7 +97,7 @@ def coq_spec_check(pid, cases):
                               {"kind": "oracle-coq-spec", "cases": [c.to_json()], "step": fd}))
     return viols, {"coq_spec_cases": len(sel)}
 
-FLOAT_TIE = {"C01": 60, "C07": 60, "C14": 60, "C15": 60, "C16": 150, "C17": 120, "C02": 40, "C05": 40}
+FLOAT_TIE = {"C01": 120, "C07": 240, "C14": 90, "C15": 90, "C16": 300, "C17": 150, "C02": 90, "C05": 60, "C12": 90}
 def float_tie(pid):
     """model@float (Coq primitive binary64) against the implementation at f64 (release build), bit for bit, on fresh cases"""
     count = FLOAT_TIE.get(pid, 0) * (1 if _SEED[1] == "quick" else 4)
@@ -115,7 +115,7 @@ def float_tie(pid):
             d = (rng.choice(["Add", "Sub", "Mul"]), d, mk_view(rng, rng.choice(["Sma", "Ema", "Min", "Rsi"])))
         if not float_executable(d):
             continue
-        reg, xs = gen_stream(rng, 24 + rng.below(24), positive=pos, grid=rng.choice([4, 10, 7, 1000, 3]))
+        reg, xs = gen_stream(rng, 24 + rng.below(24), positive=pos, grid=rng.choice([10, 7, 1000, 3, 10, 7, 4]))
         if rng.chance(0.25):
             k_ = rng.below(len(xs))
             xs[k_] = xs[k_] * 1000000
@@ -276,7 +276,7 @@ def run_C14(rng, tier):
         groups.append(g)
         cases += g
     pure = []
-    for g in groups[::3]:
+    for g in [g_ for j_, g_ in enumerate(groups) if g_[0].desc[0] in ("Tanh", "Gte", "Lte") or j_ % 3 == 0]:
         c0 = g[0]
         ops = []
         for o in c0.ops:
@@ -645,6 +645,14 @@ def run_C07(rng, tier):
                 pre = [F(rng.below(4000000) - 2000000, 1000) for _ in range(10 + rng.below(20))]
                 flat = [F(rng.below(1000), 10)] * (n + 3)
                 fcases.append(Case.simple((v, n, E), pre + flat + [flat[0] + F(1, 7)], {"regime": "volatile_flat_f64", "view": v, "model": False, "mode": "f64"}))
+    # windows only a few ulps wide (all values exactly representable): the bounds must still hold to a few ulps
+    for v in ("Hln", "Net", "Min", "Max", "Entropy", "Cog"):
+        for n in (2, 3, 5):
+            for rep in range(2 * k):
+                base = rng.choice([F(1), F(1000), F(3, 4)])
+                ulp = base / 2 ** 52 if base != F(3, 4) else F(1, 2 ** 53)
+                xs = [base + ulp * rng.below(6) for _ in range(16)]
+                fcases.append(Case.simple((v, n, E), xs, {"regime": "ulp-wide-window", "view": v, "model": False, "mode": "f64"}))
     run_impl(fcases, mode="f64")
     viols += O.c07(fcases, f64=True)
     return finish("C07", "C07", cases, viols, "every bounded view, N>=2, all regimes incl. constant stretches after volatile ones, spikes, monotone runs; exact-rational bound check at every step, and an f64 repeat with a tolerance of 4 ulps of the bound",
@@ -803,16 +811,15 @@ def run_C12(rng, tier):
     viols = O.c12(groups)
     # f64, a = 2^k: bit-exact (the property's power-of-two clause); searched on the implementation, not proved
     fpairs = []
-    for i in range(64 * k):
-        inv = i % 2 == 0
-        name = (AFFINE_INV + SCALE_INV)[(i // 2) % len(AFFINE_INV + SCALE_INV)] if inv else SCALE_EQ[(i // 2) % len(SCALE_EQ)]
-        d = mk_view(rng, name)
-        kk = rng.choice([-60, -70, 30, -50])
-        a = F(2) ** kk
-        _, xs = gen_stream(rng, 40, positive=needs_positive(d), grid=rng.choice([10, 7, 3]))
-        c1 = Case.simple(d, xs, {"view": name, "regime": "base", "model": False, "mode": "f64"})
-        c2 = Case.simple(d, [a * x for x in xs], {"view": name, "regime": "x*2^%d" % kk, "model": False, "mode": "f64"})
-        fpairs.append((c1, c2, (kk, inv)))
+    plan = [(nm, True, kk) for nm in AFFINE_INV + SCALE_INV for kk in (-60, 30)] + [(nm, False, kk) for nm in SCALE_EQ for kk in (-50, 20)]
+    for rep in range(k):
+        for (name, inv, kk) in plan:
+            d = mk_view(rng, name, n=3 + rng.below(7)) if name in WINDOWED else mk_view(rng, name)
+            a = F(2) ** kk
+            _, xs = gen_stream(rng, 40, positive=needs_positive(d), grid=rng.choice([10, 7, 3]))
+            c1 = Case.simple(d, xs, {"view": name, "regime": "base", "model": False, "mode": "f64"})
+            c2 = Case.simple(d, [a * x for x in xs], {"view": name, "regime": "x*2^%d" % kk, "model": False, "mode": "f64"})
+            fpairs.append((c1, c2, (kk, inv)))
     run_impl([c for p_ in fpairs for c in p_[:2]], mode="f64", profile="release")
     viols += O.c12_pow2(fpairs)
     return finish("C12", "C12", cases, viols, "paired runs x vs a*x+b / a*x / -x with rational a>0 and b for every view the property names; exact equality / scaling / negation of the outputs at every step (degenerate flat windows excluded as the property says); f64 pairs x vs 2^k*x compared bit for bit", {"f64_pow2_pairs": len(fpairs)})
